@@ -624,3 +624,86 @@ Definition rep_decor_premises_both (T : vtables) (dr : dbrow * N * N * N) : bool
   let row := fst (fst (fst dr)) in
   (if test (dr_mode row) MODE_X86 then rep_decor_premises T false dr else true) &&
   (if test (dr_mode row) MODE_X64 then rep_decor_premises T true dr else true).
+
+(* ------------------------------------------------------------------ operand-wise premises (additive, round 6): whether ONE operand is an acceptable instance of ONE database
+   operand is decidable without the translation state - it translates, fits the kind, names no register above 7 (so no REX is implied) and is a 64-bit GP
+   register only in 64-bit mode *)
+Definition sig_of_xlat (x : xlat) : N * N := (N.land (x_flags x) MASK56, N.land (x_regmask x) 255).
+
+Definition operand_ok (T : vtables) (x64 : bool) (iflags avx : N) (dbop : N * N * bool) (op : operand) : bool :=
+  match op with
+  | ONone => false
+  | _ =>
+    match xlat_operand T x64 false iflags avx op with
+    | XOk x comb => op_fits dbop (sig_of_xlat x) && (comb <? 256) && (x64 || negb (test (x_flags x) OF_RegGpq))
+    | XErr _ => false
+    end
+  end.
+
+Fixpoint operands_ok (T : vtables) (x64 : bool) (iflags avx : N) (dbops : list (N * N * bool)) (ops : list operand) : bool :=
+  match dbops, ops with
+  | [], [] => true
+  | d :: ds, o :: os => operand_ok T x64 iflags avx d o && operands_ok T x64 iflags avx ds os
+  | _, _ => false
+  end.
+
+(* table facts behind "any register 0..7 of the class is acceptable": for a register type rt whose OpFlags bit is kind, both modes *)
+Definition class_regs_ok (T : vtables) (rt kind maxid : N) : bool :=
+  forallb (fun x64 => forallb (fun id => operand_ok T x64 0 0 (kind, 0, false) (OReg rt id) && operand_ok T x64 0 0 (kind, N.shiftl 1 id, false) (OReg rt id))
+                              (nseq_v 0 (S (N.to_nat maxid)))) [true; false].
+
+Definition class_regs_ok_in (T : vtables) (modes : list bool) (rt kind lo hi : N) : bool :=
+  forallb (fun x64 => forallb (fun id => operand_ok T x64 0 0 (kind, 0, false) (OReg rt id) && operand_ok T x64 0 0 (kind, N.shiftl 1 id, false) (OReg rt id))
+                              (nseq_v lo (S (N.to_nat (hi - lo))))) modes.
+
+(* (register type, OpFlags kind bit, lowest id, highest id, modes) of the register classes: any such register is an acceptable instance of its kind, as a class
+   operand and as the fixed register the database may name *)
+Definition standard_register_classes : list (N * N * N * N * list bool) :=
+  [(2, 1, 0, 3, [true; false]); (3, 2, 0, 3, [true; false]); (4, 4, 0, 7, [true; false]); (5, 8, 0, 7, [true; false]); (6, 16, 0, 7, [true]);
+   (11, 32, 0, 7, [true; false]); (12, 64, 0, 7, [true; false]); (13, 128, 0, 7, [true; false]); (28, 256, 0, 7, [true; false]); (16, 512, 0, 7, [true; false]);
+   (25, 1024, 1, 6, [true; false]); (26, 2048, 0, 7, [true; false]); (27, 4096, 0, 7, [true; false]); (29, 8192, 0, 7, [true; false]); (30, 16384, 0, 3, [true; false]);
+   (17, 32768, 0, 7, [true; false])].
+
+Definition standard_registers_ok (T : vtables) : bool :=
+  forallb (fun c => let '(rt, kind, lo, hi, modes) := c in class_regs_ok_in T modes rt kind lo hi) standard_register_classes.
+
+Definition rep_operands_ok_both (T : vtables) (row : dbrow) : bool :=
+  let '(iflags, avx, _, _) := nth (N.to_nat (dr_inst row)) (vt_inst T) (0, 0, 0, 0) in
+  (if test (dr_mode row) MODE_X86 then operands_ok T false iflags avx (explicit_ops (dr_ops row)) (rep_ops false row) else true) &&
+  (if test (dr_mode row) MODE_X64 then operands_ok T true iflags avx (explicit_ops (dr_ops row)) (rep_ops true row) else true).
+
+(* ------------------------------------------------------------------ SYNTACTIC standard instances of a database operand (no reference to the validator's translation):
+   a register 0..7 (class-dependent range) of the class the kind names - the fixed one if the database fixes one; a plain memory operand [mode-sized GP base 0..7 +
+   any displacement] of the named size (displacement 0 mod 2^32 where a base-only address is demanded); an immediate whose value belongs to one of the named
+   immediate kinds; a label for a relative displacement *)
+Definition std_reg (x64 : bool) (need fixed rt id : N) : bool :=
+  existsb (fun c => let '(rt', kind, lo, hi, modes) := c in
+             (rt' =? rt) && (need =? kind) && (lo <=? id) && (id <=? hi) && existsb (Bool.eqb x64) modes) standard_register_classes &&
+  ((fixed =? 0) || (fixed =? N.shiftl 1 id)).
+
+Definition std_instance (x64 : bool) (dbop : N * N * bool) (op : operand) : bool :=
+  let '(need, fixed, impl) := dbop in
+  negb impl &&
+  match op with
+  | OReg rt id => std_reg x64 need fixed rt id
+  | OMem sz bt bid it iid off seg bcst home =>
+    (bt =? (if x64 then RT_Gp64 else RT_Gp32)) && (bid <? 8) && (it =? 0) && (iid =? 0) && (seg =? 0) && (bcst =? 0) && negb home && (fixed =? 0) &&
+    match mem_size_flag sz with
+    | Some sf => ((need =? sf) || ((need =? N.lor sf OF_FlagMemBase) && (off mod 4294967296 =? 0)%Z))
+    | None => false
+    end
+  | OImm v => (fixed =? 0) && negb (test need OF_RegMask) && negb (test need OF_FlagMemBase) && test (N.land (N.land (imm_flags v) MASK56) need) OF_OpMask
+  | OLabel => (fixed =? 0) && negb (test need OF_RegMask) && negb (test need OF_FlagMemBase) && test (N.land (N.land (N.lor OF_Rel8 OF_Rel32) MASK56) need) OF_OpMask
+  | ONone => false
+  end.
+
+Fixpoint std_instances (x64 : bool) (dbops : list (N * N * bool)) (ops : list operand) : bool :=
+  match dbops, ops with
+  | [], [] => true
+  | d :: ds, o :: os => std_instance x64 d o && std_instances x64 ds os
+  | _, _ => false
+  end.
+
+Definition rep_is_standard_both (row : dbrow) : bool :=
+  (if test (dr_mode row) MODE_X86 then std_instances false (explicit_ops (dr_ops row)) (rep_ops false row) else true) &&
+  (if test (dr_mode row) MODE_X64 then std_instances true (explicit_ops (dr_ops row)) (rep_ops true row) else true).
